@@ -13,6 +13,8 @@
                    non-null position (null, and for the non-null position one error)
            lval    resolver returns the list [v, null, v] for a field of type [Int]
            lnn     resolver returns the list [v, null] for a field of type [Int!]: null item stays, one error with the index
+           argerr  the field's ARGUMENTS fail coercion at execution time (an explicit null reaches `x: Int! = 3` through a nullable
+                   variable): the resolver is never invoked, the field is null with one error, and it settles at once whatever its mode
      mode: def = the resolver's result becomes available later (pool task / coroutine), sync = in line.
    Phase "run": Begin starts the operation; Complete(n) makes the result of any pending resolver available.
      Start(ns)   starts field instances in document order; synchronous ones complete in line, depth first
@@ -25,7 +27,7 @@ EXTENDS Naturals, Sequences, FiniteSets, TLC, Json, SequencesExt
 CONSTANTS MaxNodes,  \* maximal number of field instances in a plan
           OpKinds,   \* subset of {"query", "mutation"}
           Modes      \* subset of {"def", "sync"}
-Outs == {"val", "null", "nullnn", "err", "crash", "obj", "sernull", "sernullnn", "lval", "lnn"}
+Outs == {"val", "null", "nullnn", "err", "crash", "obj", "sernull", "sernullnn", "lval", "lnn", "argerr"}
 NodeChoices == {[mode |-> m, out |-> o] : m \in Modes, o \in Outs}
 VARIABLES phase, op, nodes, st, steps, failed, init0, inv
 vars == <<phase, op, nodes, st, steps, failed, init0, inv>>
@@ -56,8 +58,8 @@ RECURSIVE Start(_, _)
 Start(ns, s) ==
   IF ns = <<>> \/ s.failed THEN s
   ELSE LET n == Head(ns)
-           si == [s EXCEPT !.inv = Append(@, n)]
-           s1 == IF Nd(n).mode = "def" THEN [si EXCEPT !.st[n] = "pending"]
+           si == IF Nd(n).out = "argerr" THEN s ELSE [s EXCEPT !.inv = Append(@, n)]
+           s1 == IF Nd(n).mode = "def" /\ Nd(n).out # "argerr" THEN [si EXCEPT !.st[n] = "pending"]
                  ELSE LET s0 == [si EXCEPT !.st[n] = "done", !.failed = (Nd(n).out = "crash")]
                       IN IF Nd(n).out = "obj" THEN Start(Kids(n), s0) ELSE s0
        IN Start(Tail(ns), s1)
@@ -95,13 +97,13 @@ Quiescent == phase = "run" /\ (failed \/ Pending(st) = {})
 \* ---- reference result (denotational, schedule independent): data tree and error positions --------------------
 RECURSIVE Data(_)
 Data(n) == CASE Nd(n).out = "val" -> [k |-> "val"]
-             [] Nd(n).out \in {"null", "nullnn", "err", "sernull", "sernullnn"} -> [k |-> "null"]
+             [] Nd(n).out \in {"null", "nullnn", "err", "sernull", "sernullnn", "argerr"} -> [k |-> "null"]
              [] Nd(n).out = "lval" -> [k |-> "lval"]
              [] Nd(n).out = "lnn" -> [k |-> "lnn"]
              [] Nd(n).out = "obj" -> [k |-> "obj", kids |-> [i \in 1..Len(Kids(n)) |-> [id |-> Kids(n)[i], v |-> Data(Kids(n)[i])]]]
              [] OTHER -> [k |-> "crash"]
 Reachable(n) == \A a \in Anc(nodes, n) \ {0, n} : Nd(a).out = "obj"
-ErrNodes == {n \in 1..NN : Reachable(n) /\ Nd(n).out \in {"nullnn", "err", "sernullnn", "lnn"}}
+ErrNodes == {n \in 1..NN : Reachable(n) /\ Nd(n).out \in {"nullnn", "err", "sernullnn", "lnn", "argerr"}}
 Crashes == \E n \in 1..NN : Reachable(n) /\ Nd(n).out = "crash"
 
 \* ---- properties ---------------------------------------------------------------------------------------------------
@@ -118,7 +120,9 @@ Serial == (phase = "run" /\ op = "mutation") =>
 RECURSIVE Filter(_, _)
 Filter(s, S) == IF s = <<>> THEN <<>> ELSE (IF Head(s) \in S THEN <<Head(s)>> ELSE <<>>) \o Filter(Tail(s), S)
 TopOrder == (phase = "run" /\ op = "mutation") =>
-              LET t == Filter(inv, {Tops[i] : i \in 1..Len(Tops)}) IN \A i \in 1..Len(t) : t[i] = Tops[i]
+              LET t == Filter(inv, {Tops[i] : i \in 1..Len(Tops)})
+                  called == SelectSeq(Tops, LAMBDA x : Nd(x).out # "argerr")      \* a field whose arguments do not coerce has no resolver call
+              IN \A i \in 1..Len(t) : t[i] = called[i]
 \* C08 liveness: execution completes once all resolvers have completed (checked under FairSpec)
 Terminates == (phase = "run") ~> Quiescent
 
